@@ -18,6 +18,8 @@ use tower::Service;
 pub enum Instr {
     Reply,
     Fail { code: u16, message: Option<String>, headers: Vec<(String, String)> },
+    /// the handler needs this long (a guard records when its future is dropped)
+    Sleep { ms: u64 },
 }
 
 #[derive(Debug, Clone, Serialize, Deserialize, PartialEq)]
@@ -37,14 +39,29 @@ pub mod gamma {
     include!(concat!(env!("OUT_DIR"), "/solo.Gamma.rs"));
 }
 
+/// .0 = log of (handler, request id) invocations; .1 = ids of `Sleep` handlers whose future has been dropped
+/// (finished or cancelled), with whether it had finished
 #[derive(Clone, Default)]
-pub struct H(pub Arc<Mutex<Vec<(String, u64)>>>);
+pub struct H(pub Arc<Mutex<Vec<(String, u64)>>>, pub Arc<Mutex<Vec<(u64, bool)>>>);
+
+struct SleepGuard(Arc<Mutex<Vec<(u64, bool)>>>, u64, bool);
+impl Drop for SleepGuard {
+    fn drop(&mut self) {
+        self.0.lock().unwrap().push((self.1, self.2));
+    }
+}
 
 impl H {
-    fn handle(&self, which: &str, req: Request<Msg>) -> Result<Response<Msg>, Status> {
+    async fn handle(&self, which: &str, req: Request<Msg>) -> Result<Response<Msg>, Status> {
         let m = req.into_body();
         self.0.lock().unwrap().push((which.to_string(), m.id));
         match m.instr.clone() {
+            Instr::Sleep { ms } => {
+                let mut g = SleepGuard(self.1.clone(), m.id, false);
+                tokio::time::sleep(std::time::Duration::from_millis(ms)).await;
+                g.2 = true;
+                Ok(Response::new(Msg { id: m.id, via: which.to_string(), instr: Instr::Reply }))
+            }
             Instr::Reply => Ok(Response::new(Msg { id: m.id, via: which.to_string(), instr: Instr::Reply })),
             Instr::Fail { code, message, headers } => {
                 let c = StatusCode::new(code).unwrap_or(StatusCode::Unknown);
@@ -64,29 +81,29 @@ impl H {
 #[anemo::async_trait]
 impl alpha::alpha_server::Alpha for H {
     async fn ping(&self, request: Request<Msg>) -> Result<Response<Msg>, Status> {
-        self.handle("Alpha.ping", request)
+        self.handle("Alpha.ping", request).await
     }
     async fn raw_echo(&self, request: Request<Msg>) -> Result<Response<Bytes>, Status> {
-        let r = self.handle("Alpha.raw_echo", request)?;
+        let r = self.handle("Alpha.raw_echo", request).await?;
         Ok(r.map(|m| Bytes::from(serde_json::to_vec(&m).unwrap())))
     }
 }
 #[anemo::async_trait]
 impl beta::beta_server::Beta for H {
     async fn m_one(&self, request: Request<Msg>) -> Result<Response<Msg>, Status> {
-        self.handle("Beta.m_one", request)
+        self.handle("Beta.m_one", request).await
     }
     async fn m_two(&self, request: Request<Msg>) -> Result<Response<Msg>, Status> {
-        self.handle("Beta.m_two", request)
+        self.handle("Beta.m_two", request).await
     }
     async fn m_three(&self, request: Request<Msg>) -> Result<Response<Msg>, Status> {
-        self.handle("Beta.m_three", request)
+        self.handle("Beta.m_three", request).await
     }
 }
 #[anemo::async_trait]
 impl gamma::gamma_server::Gamma for H {
     async fn only(&self, request: Request<Msg>) -> Result<Response<Msg>, Status> {
-        self.handle("Gamma.only", request)
+        self.handle("Gamma.only", request).await
     }
 }
 
@@ -274,6 +291,13 @@ pub fn run_c17(run: &mut Run) -> anyhow::Result<()> {
             Instr::Fail { code: *rng.pick(&codes), message: if rng.chance(2, 3) { Some((*rng.pick(&words)).to_string()) } else { None }, headers }
         };
         let msg = Msg { id, via: String::new(), instr: instr.clone() };
+        // what the application hands to the typed method: a bare message (as a fresh Request) or a Request
+        // that already carries a route -- forwarded from elsewhere, built for another method, or garbage
+        let msg = match rng.below(5) {
+            0 => Request::new(msg).with_route(*rng.pick(&["/stale/route", "/pkg.sub.Beta/Two", "/Alpha/Ping", "", "/solo.Gamma/only", "/pkg.sub.Beta/One"])),
+            _ => Request::new(msg),
+        };
+        run.count("typed-call-request", if msg.route() == "/" { "fresh" } else { "pre-routed" });
         let which = rng.below(6);
         let want = ["Alpha.ping", "Alpha.raw_echo", "Beta.m_one", "Beta.m_two", "Beta.m_three", "Gamma.only"][which as usize];
         let before = h.0.lock().unwrap().len();
@@ -319,6 +343,7 @@ pub fn run_c17(run: &mut Run) -> anyhow::Result<()> {
                 run.count("status", &format!("msg={} headers={}", message.is_some(), headers.len()));
                 run.op(op, out, true);
             }
+            (Instr::Sleep { .. }, _) => {}
         }
     }
     // ---- (3) outcome tables: client on fixed transport answers, server on corrupted payloads
